@@ -354,9 +354,11 @@ PROPS = {
               dict(driver="sched", args=["--all"], quick=1, thorough=6, trace=CONC_TRACE,
                    final_rc3=True)]),
     "C07": dict(
-        design=[(CORE, [Q1], ["MC_RainCore_small.cfg", "MC_RainCore_pins.cfg"])],
+        design=[(CORE, [Q1, "MC_RainCore_gap.cfg"],
+                 ["MC_RainCore_small.cfg", "MC_RainCore_pins.cfg", "MC_RainCore_gap.cfg"])],
         switches=[("Bug_NoBoundary", CORE, Q1, None), ("Bug_DropTombNoBase", CORE, Q1, None),
-                  ("Bug_ImmDropEarly", CORE, Q1, None)],
+                  ("Bug_ImmDropEarly", CORE, Q1, None),
+                  ("Bug_FlushDeepDuringCompaction", CORE, "MC_RainCore_gap.cfg", None)],
         work=[dict(driver="hist", args=["--nops", "70", "--per-file", "6", "--compact-bias", "1"],
                    quick=48, thorough=1200),
               dict(driver="hist", args=["--nops", "80", "--per-file", "6", "--profile", "local",
@@ -365,6 +367,7 @@ PROPS = {
     "C10": dict(
         design=[(CORE, [Q1], ["MC_RainCore_small.cfg"]), REOPEN],
         switches=[("Bug_RangeMin", CORE, "MC_RainCore_range.cfg", None),
+                  ("Bug_FlushDeepDuringCompaction", CORE, "MC_RainCore_gap.cfg", None),
                   ("Bug_SnapshotSwapsBounds", REO, REOQ, "RWellFormed")],
         work=[dict(driver="hist", args=["--nops", "60", "--per-file", "6", "--reopen-bias", "1"],
                    quick=48, thorough=1000),
